@@ -138,6 +138,10 @@ Definition dec_op (fuel : nat) (l : list Z) : option op * list Z :=
     else if c =? 26 then
       let '(d1, r) := take_list t in let '(d2, r2) := take_list r in
       (Some (OIoWrite (if zlen d1 =? 0 then d2 else d1)), r2)
+    (* 28: `buf.write_all(d)` in method-call syntax with std::io::Write in scope.  On the pinned API that is the PROVIDED Write::write_all
+       (library/std/src/io/mod.rs default_write_all): nothing for empty data, else one write(d), which is all-or-nothing here — so the
+       effect and the Ok/Err of OIoWrite d; an inherent method of that name would be picked instead and shows as a disagreement *)
+    else if c =? 28 then let '(d, r) := take_list t in (Some (OIoWrite d), r)
     else if c =? 27 then
       match t with
       | k1 :: k2 :: r => (Some (OIoRead (repeat 221 (Z.to_nat (if k1 =? 0 then k2 else k1)))), r)
